@@ -85,6 +85,110 @@ func TestVerifReplay(t *testing.T) {
 	}
 }
 
+// witness is a reach witness to be cross-checked natively.
+type witness struct {
+	h     *Harness
+	args  []int64
+	model map[string]uint64
+	label string
+}
+
+// validateWitnesses runs the harnesses natively on the solver's reach
+// witnesses (one go test per package): every assumption must hold natively
+// (else the encoding disagrees with the compiled code) and no assertion or
+// panic may fire. Returns the number validated and the list of mismatches.
+func (g *Engine) validateWitnesses(prop string, ws []witness) (int, []string) {
+	if len(ws) == 0 {
+		return 0, nil
+	}
+	dir := filepath.Join(g.verifDir, "out", "validate", prop)
+	os.MkdirAll(dir, 0o755)
+	byPkg := map[string][]int{}
+	for i, w := range ws {
+		byPkg[w.h.Fn.Pkg.Pkg.Path()] = append(byPkg[w.h.Fn.Pkg.Pkg.Path()], i)
+	}
+	ok := 0
+	var bad []string
+	for pkgPath, idxs := range byPkg {
+		pkgDir := strings.TrimPrefix(strings.TrimPrefix(pkgPath, "github.com/maruel/panicparse/v2"), "/")
+		pkgName := ws[idxs[0]].h.Fn.Pkg.Pkg.Name()
+		var body strings.Builder
+		for _, i := range idxs {
+			w := ws[i]
+			mp := filepath.Join(dir, fmt.Sprintf("w%d.json", i))
+			b, _ := json.Marshal(map[string]interface{}{"model": w.model})
+			os.WriteFile(mp, b, 0o644)
+			var args []string
+			for _, a := range w.args {
+				args = append(args, fmt.Sprint(a))
+			}
+			fmt.Fprintf(&body, "\trun(%d, %q, func() { %s(%s) })\n", i, mp, w.h.Name, strings.Join(args, ", "))
+		}
+		src := fmt.Sprintf(`//go:build verif
+
+package %s
+
+import (
+	"fmt"
+	"testing"
+)
+
+func TestVerifWitnesses(t *testing.T) {
+	run := func(i int, model string, f func()) {
+		fmt.Printf("WITNESS-BEGIN %%d\n", i)
+		func() {
+			defer func() {
+				if r := recover(); r != nil {
+					fmt.Printf("REPLAY-PANIC %%v\n", r)
+				}
+			}()
+			vLoadReplay(model)
+			f()
+		}()
+		fmt.Printf("WITNESS-END %%d\n", i)
+	}
+%s}
+`, pkgName, body.String())
+		testFile := filepath.Join(dir, "witness_"+pkgName+"_test.go.txt")
+		os.WriteFile(testFile, []byte(src), 0o644)
+		ov := map[string]map[string]string{"Replace": {}}
+		for virt, real := range g.ovFiles {
+			ov["Replace"][virt] = real
+		}
+		ov["Replace"][filepath.Join(g.repo, pkgDir, "zz_verif_witness_test.go")] = testFile
+		ovPath := filepath.Join(dir, "overlay_"+pkgName+".json")
+		b, _ := json.Marshal(ov)
+		os.WriteFile(ovPath, b, 0o644)
+		cmd := exec.Command("go", "test", "-tags", "verif", "-vet=off", "-count=1", "-overlay", ovPath, "-run", "^TestVerifWitnesses$", "-v", "./"+pkgDir)
+		cmd.Dir = g.repo
+		cmd.Env = append(os.Environ(), "GOFLAGS=-mod=mod", "GOPROXY=off", "GOSUMDB=off", "GOTOOLCHAIN=local")
+		out, _ := cmd.CombinedOutput()
+		txt := string(out)
+		for _, i := range idxs {
+			beg := strings.Index(txt, fmt.Sprintf("WITNESS-BEGIN %d\n", i))
+			end := strings.Index(txt, fmt.Sprintf("WITNESS-END %d\n", i))
+			if beg < 0 || end < 0 {
+				bad = append(bad, fmt.Sprintf("%s: witness %d did not run natively", ws[i].h.Name, i))
+				continue
+			}
+			seg := txt[beg:end]
+			if strings.Contains(seg, "REPLAY-ASSUME-FAIL") || strings.Contains(seg, "REPLAY-ASSERT-FAIL") || strings.Contains(seg, "REPLAY-PANIC") {
+				line := seg
+				if len(line) > 300 {
+					line = line[:300]
+				}
+				bad = append(bad, fmt.Sprintf("%s(%v) label %q: native run disagrees with the encoding: %s", ws[i].h.Name, ws[i].args, ws[i].label, strings.ReplaceAll(line, "\n", " | ")))
+				continue
+			}
+			ok++
+		}
+		if len(bad) > 0 {
+			os.WriteFile(filepath.Join(dir, "native_"+pkgName+".log"), out, 0o644)
+		}
+	}
+	return ok, bad
+}
+
 // reachLabels lists the vReach("...") labels in the harness function's source.
 func (g *Engine) reachLabels(h *Harness) []string {
 	var out []string
